@@ -26,7 +26,12 @@ FILES = [
     FileCfg("raw", "src/raw/mod.rs",
             paths={"Group::WIDTH": ("ctx", "Group::WIDTH"),
                    "isize::MAX": ("prelude", "(rs_isize_max {bits})", "isize"),
-                   "usize::MAX": ("prelude", "(rs_usize_max {bits})", "usize")},
+                   "usize::MAX": ("prelude", "(rs_usize_max {bits})", "usize"),
+                   # the element type parameter `T` of `Bucket<T>` / `RawTable<T, A>` / `RawIterRange<T>`:
+                   # `T::IS_ZERO_SIZED` (`SizedTypeProperties`) is `mem::size_of::<T>() == 0`
+                   "T::IS_ZERO_SIZED": ("ctxexpr", "T::SIZE", "({ctx} == 0)", "bool"),
+                   "T::SIZE": ("ctx", "T::SIZE"), "T::ALIGN": ("ctx", "T::ALIGN")},
+            elem_param="T",
             abstractions=[("self.bucket_mask", "bucket_mask", "usize"),
                           ("self.items", "items", "usize"),
                           ("self.growth_left", "growth_left", "usize"),
@@ -52,8 +57,13 @@ FILES = [
 IMPL = lambda name, trait=None: ("impl", name, trait)  # noqa: E731
 MOD = lambda name: ("mod", name, None)                # noqa: E731
 
+# abstractions of the pointer specs: the control-byte pointer of the table, the two pointers of a `RawIterRange`
+PTR_INNER = [("self.ctrl", "ctrl", ("ptr", "u8"))]
+PTR_TABLE = [("self.table.ctrl", "ctrl", ("ptr", "u8"))]
+PTR_RANGE = [("self.data", "data", "Bucket"), ("self.next_ctrl", "next_ctrl", ("ptr", "u8"))]
+
 # kind: struct | newtype | const | fn            (whole items)
-#       let | ifcond | call | assign | field     (one expression extracted from an effectful fn body)
+#       let | ifcond | call | mcall | assign | field   (one expression extracted from an effectful fn body)
 #       frag                                     (a statement suffix as a transformer of the book-keeping fields)
 #       writes                                   (the list of field assignments of a fn body)
 SPECS = [
@@ -210,6 +220,54 @@ SPECS = [
          locals=[("probe_seq", "ProbeSeq"), ("bit", "usize")]),
     dict(kind="let", file="raw", scope=IMPL("RawTableInner"), fn="find_or_find_insert_slot_inner", var="index", ret="usize",
          depth="any", locals=[("probe_seq", "ProbeSeq"), ("bit", "usize")]),
+    # ---- raw/mod.rs: the `Bucket<T>` pointer encoding and the data pointer of `RawIterRange` as arithmetic over
+    # abstract addresses (pointers ↦ `Nat`, `T_size` = `mem::size_of::<T>()`, `T_align` = `mem::align_of::<T>()`;
+    # model: Hb/Model/BucketPtr.lean)
+    dict(kind="struct", file="raw", name="Bucket"),
+    dict(kind="fn", file="raw", scope=None, fn="offset_from"),
+    dict(kind="fn", file="raw", scope=IMPL("Bucket"), fn="from_base_index"),
+    dict(kind="fn", file="raw", scope=IMPL("Bucket"), fn="to_base_index"),
+    dict(kind="fn", file="raw", scope=IMPL("Bucket"), fn="as_ptr"),
+    dict(kind="fn", file="raw", scope=IMPL("Bucket"), fn="as_non_null"),
+    dict(kind="fn", file="raw", scope=IMPL("Bucket"), fn="next_n"),
+    dict(kind="fn", file="raw", scope=IMPL("Bucket", "Clone"), fn="clone"),
+    dict(kind="fn", file="raw", scope=IMPL("RawTableInner"), fn="data_end", abstractions=PTR_INNER),
+    dict(kind="fn", file="raw", scope=IMPL("RawTableInner"), fn="bucket", abstractions=PTR_INNER),
+    dict(kind="fn", file="raw", scope=IMPL("RawTableInner"), fn="bucket_ptr", abstractions=PTR_INNER),
+    dict(kind="let", file="raw", scope=IMPL("RawTableInner"), fn="iter", var="data", ret="Bucket", abstractions=PTR_INNER),
+    dict(kind="call", file="raw", scope=IMPL("RawTableInner"), fn="iter", path="RawIterRange::new", name="range_data",
+         arg=1, nargs=3, ret="Bucket", locals=[("data", "Bucket")]),
+    dict(kind="fn", file="raw", scope=IMPL("RawTable"), fn="data_end", abstractions=PTR_TABLE),
+    dict(kind="fn", file="raw", scope=IMPL("RawTable"), fn="bucket", abstractions=PTR_TABLE),
+    dict(kind="fn", file="raw", scope=IMPL("RawTable"), fn="bucket_index", abstractions=PTR_TABLE),
+    dict(kind="call", file="raw", scope=IMPL("RawTable"), fn="into_allocation", path="NonNull::new_unchecked",
+         name="start", ret=("ptr", "u8"), locals=[("ctrl_offset", "usize")],
+         abstractions=PTR_TABLE + [("self.table.buckets()", "buckets", "usize")]),
+    # RawIterRange: the `data` / `next_ctrl` pointers (a view of the struct without `current_group` and `end`)
+    dict(kind="struct", file="raw", name="RawIterRange", only=["data", "next_ctrl"]),
+    dict(kind="struct", file="raw", name="RawIter"),
+    dict(kind="field", file="raw", scope=IMPL("RawIterRange"), fn="new", lit="Self", field="data", name="data", ret="Bucket"),
+    dict(kind="let", file="raw", scope=IMPL("RawIterRange"), fn="new", var="next_ctrl", ret=("ptr", "u8")),
+    dict(kind="mcall", file="raw", scope=IMPL("RawIterRange"), fn="next_impl", recv="self.data", method="next_n",
+         nth=0, of=2, name="yield", ret="Bucket", locals=[("index", "usize")], abstractions=PTR_RANGE),
+    dict(kind="assign", file="raw", scope=IMPL("RawIterRange"), fn="next_impl", place="self.data", name="data",
+         ret="Bucket", abstractions=PTR_RANGE),
+    dict(kind="assign", file="raw", scope=IMPL("RawIterRange"), fn="next_impl", place="self.next_ctrl", name="next_ctrl",
+         ret=("ptr", "u8"), abstractions=PTR_RANGE),
+    dict(kind="let", file="raw", scope=IMPL("RawIterRange"), fn="fold_impl", var="bucket", ret="Bucket", depth="any",
+         locals=[("index", "usize")], abstractions=PTR_RANGE),
+    dict(kind="assign", file="raw", scope=IMPL("RawIterRange"), fn="fold_impl", place="self.data", name="data",
+         ret="Bucket", abstractions=PTR_RANGE),
+    dict(kind="assign", file="raw", scope=IMPL("RawIterRange"), fn="fold_impl", place="self.next_ctrl", name="next_ctrl",
+         ret=("ptr", "u8"), abstractions=PTR_RANGE),
+    dict(kind="let", file="raw", scope=IMPL("RawIterRange"), fn="split", var="mid", ret="usize", depth="any",
+         locals=[("len", "usize")]),
+    dict(kind="call", file="raw", scope=IMPL("RawIterRange"), fn="split", path="Self::new", name="tail_ctrl",
+         arg=0, nargs=3, ret=("ptr", "u8"), locals=[("mid", "usize")], abstractions=PTR_RANGE),
+    dict(kind="call", file="raw", scope=IMPL("RawIterRange"), fn="split", path="Self::new", name="tail_data",
+         arg=1, nargs=3, ret="Bucket", locals=[("mid", "usize")], abstractions=PTR_RANGE),
+    dict(kind="fn", file="raw", scope=IMPL("RawIterRange", "Clone"), fn="clone"),
+    dict(kind="fn", file="raw", scope=IMPL("RawIter", "Clone"), fn="clone"),
     # ---- serde.rs / map.rs
     dict(kind="fn", file="serde", scope=MOD("size_hint"), fn="cautious"),
     dict(kind="let", file="map", scope=IMPL("HashMap", "Extend<(K,V)>"), fn="extend", var="reserve", ret="usize",
@@ -318,6 +376,7 @@ class Generator:
         lean_struct = sp.get("as", sp["name"])
         self.world.structs[lean_struct] = fields
         if only is not None:
+            self.world.struct_all[lean_struct] = [fname for (fname, _) in st.fields]
             sp = dict(sp, name=lean_struct)
         lines = ["structure %s where" % sp["name"]]
         for (fname, t) in fields:
@@ -605,7 +664,51 @@ class Generator:
                     if k >= len(toks):
                         raise TranslateError("%s: unterminated call" % where)
                 hits.append(toks[i:k + 1])
-        self._emit_extracted(sp, f, where, fn, unique(hits, where, f), sp["fn"] + "_" + sp["name"])
+        hit = unique(hits, where, f)
+        if sp.get("arg") is not None:
+            # only the `arg`-th argument (0-based) of the call; the number of arguments is part of the spec
+            from rs_lex import split_top
+            args = [a for a in split_top(hit[len(pat) + 1:-1]) if a]
+            if len(args) != sp["nargs"]:
+                raise TranslateError("%s: expected %d arguments, found %d" % (where, sp["nargs"], len(args)))
+            where = where + " [argument %d]" % sp["arg"]
+            hit = args[sp["arg"]]
+        self._emit_extracted(sp, f, where, fn, hit, sp["fn"] + "_" + sp["name"])
+
+    def emit_mcall(self, sp):
+        """Extract a method call `<recv>.<method>(..)` (receiver given as a field chain, e.g. `self.data`)
+        from a function body: the unique one, or with `nth=i, of=n` the i-th (source order) of exactly n.
+        A longer chain `<recv>.<method>(..).more(..)` is cut after the first call."""
+        f, where, fn = self.find_fn(sp)
+        nth, of = sp.get("nth"), sp.get("of")
+        where = where + " [method call %s.%s(..)%s]" % (sp["recv"], sp["method"],
+                                                        " #%d of %d" % (nth, of) if nth is not None else "")
+        pat = [x.text for x in tokenize(sp["recv"])[:-1]] + [".", sp["method"]]
+        toks = fn.body
+        hits = []
+        for i in range(len(toks) - len(pat)):
+            if [x.text for x in toks[i:i + len(pat)]] == pat and toks[i + len(pat)].text == "(" \
+                    and not (i > 0 and toks[i - 1].text in ("::", ".")):
+                k, d = i + len(pat), 0
+                while True:
+                    tt = toks[k]
+                    if tt.kind == "punct" and tt.text in "([{":
+                        d += 1
+                    elif tt.kind == "punct" and tt.text in ")]}":
+                        d -= 1
+                        if d == 0:
+                            break
+                    k += 1
+                    if k >= len(toks):
+                        raise TranslateError("%s: unterminated call" % where)
+                hits.append(toks[i:k + 1])
+        if nth is not None:
+            if len(hits) != of:
+                raise TranslateError("%s: expected %d such calls in %s, found %d" % (where, of, f.path, len(hits)))
+            hit = hits[nth]
+        else:
+            hit = unique(hits, where, f)
+        self._emit_extracted(sp, f, where, fn, hit, sp["fn"] + "_" + sp["name"])
 
     @staticmethod
     def sort_abs(tr):
